@@ -57,7 +57,9 @@ static void part_models(const std::vector<size_t>& ns) {
                 absolute(z.impedance(), n, fmax, frev, std::sqrt(Impedance::Z0 * (1 + xi) * frev / s / M_PI / physcons::c) * L / 2 / b * std::complex<double>(1, -1), 0.5, "C16/ResistiveWall", kase);
             }
         }
-        for (double outer : {0.016, 0.05}) for (double inner : {0.002, 0.01}) {
+        // openings from an eighth of the pipe radius up to a hair's breadth below it (1 - inner/outer = 1e-3 ... 2e-8: ln(outer/inner) is then that small number itself)
+        for (double outer : {0.016, 0.05}) for (double rel : {0.125, 0.2, 0.625, 1 - 1e-3, 1 - 1e-5, 1 - 1e-6, 1 - 1e-7, 1 - 2e-8}) {
+            const double inner = outer * rel;
             CollimatorImpedance z(n, fmax, outer, inner);
             R.eval(kase + " model=collimator", zhash(z.impedance(), kase + "co" + mcx::fstr(outer) + mcx::fstr(inner)), false);
             if (wellformed(z, n, "C16/Collimator", kase)) {
@@ -72,7 +74,7 @@ static void part_models(const std::vector<size_t>& ns) {
             else for (size_t i = 0; i < n; i++) if (v[i] != (i < n / 2 ? impedance_t(3.f, -2.f) : impedance_t(0, 0))) { R.violate("C16/ConstImpedance/shape", kase, "sample " + std::to_string(i)); break; }
         }
     }
-    R.bound_done("models: sample counts x 7 f_max (0.5 f_rev ... 5 THz) x 3 f_rev x {free space, wall(2 conductivities x 3 susceptibilities x 2 radii), collimator(2x2 radii), constant}");
+    R.bound_done("models: sample counts x 7 f_max (0.5 f_rev ... 5 THz) x 3 f_rev x {free space, wall(2 conductivities x 3 susceptibilities x 2 radii), collimator(2 radii x 8 openings down to 2e-8 below the radius), constant}");
 }
 
 static void part_plates(const std::vector<size_t>& ns) {
